@@ -1,3 +1,3 @@
 #!/bin/sh
 # keep2.sh <prop> <worktree> <n> <slug> <breaks> <needs> <result>   (round-2 convenience wrapper)
-/verif/tools/keep_mutant.py "$1" "$2" "$3" "$4" "$(/venv/bin/python -c 'import json,sys; print(json.dumps({"breaks":sys.argv[1],"needs":sys.argv[2],"check_result":sys.argv[3],"confirmed":"demo exits 0 clean / 1 mutated; the repository tests of the area give the same failing set as on the clean tree (agent_notes.md)","round":2,"ran":"tools/try_mutant.sh"}))' "$5" "$6" "$7")"
+/verif/tools/keep_mutant.py "$1" "$2" "$3" "$4" "$(/venv/bin/python -c 'import json,sys; print(json.dumps({"breaks":sys.argv[1],"needs":sys.argv[2],"check_result":sys.argv[3],"confirmed":"demo exits 0 clean / 1 mutated; the repository tests of the area give the same failing set as on the clean tree (agent_notes.md)","round":int(__import__("os").environ.get("ROUND","3")),"ran":"tools/try_mutant.sh"}))' "$5" "$6" "$7")"
